@@ -3,7 +3,7 @@ ENGINES = {
     "sort": dict(
         path="harness/sort.go harness/sort_nodes.go harness/sort_engine.go coq/Sort coq/Oracles/SortCheck.v coq/Props/C19.v",
         about="Gallina model of the comparators of sorters.go (Go's insertion sort, fair-max lookup), Allocation.LessThan + sortedRequests, baseNodeCollection + iterators; strict-weak-order / permutation-invariance / invariant theorems; correspondence and order oracles on every permutation (n<=5) and random permutations (n<=12) sorted by the real code, node histories step by step",
-        n=dict(quick=60, thorough=400), shards=dict(quick=1, thorough=4),
+        n=dict(quick=60, thorough=250), shards=dict(quick=1, thorough=6),
         kinds={
             1: dict(cls="corr", props=["C19"], what="sort/ask list/node collection model and implementation disagree"),
             2: dict(cls="oracle", props=["C19"], what="a sorter returned two candidates the policy distinguishes in the wrong relative order (the order depends on how the candidates were stored) or lost/duplicated a candidate"),
